@@ -70,7 +70,13 @@ func (s Set[T]) Has(val T) bool {
 func (s Set[T]) Copy() Set[T] {
 	ret := NewSet(s.rules)
 	for k, v := range s.vals {
-		ret.vals[k] = v
+		// Each bucket needs its own backing array: Add appends to a bucket
+		// in place, so a bucket shared between the receiver and the copy
+		// would let an Add on one of them overwrite the element most recently
+		// added to the other.
+		nv := make([]T, len(v))
+		copy(nv, v)
+		ret.vals[k] = nv
 	}
 	return ret
 }
